@@ -19,7 +19,7 @@ func VH_lexID(a []string) {
 	vReachablePrefix(buf, p)
 	vLexIDBody(a, buf, p, m, c)
 	if vReplaying() && vFailedAny() {
-		vLiftLex(buf, "api")
+		vLiftLexParts(buf[:p], buf[p:p+m], buf[p+m:], "api")
 	}
 }
 
@@ -145,7 +145,7 @@ func VH_lexRef(a []string) {
 	buf := pre + prefix + rest
 	vLexRefBody(a, buf, rest, prefix, p, which, m)
 	if vReplaying() && vFailedAny() {
-		vLiftLex(buf, "api")
+		vLiftLexParts(pre, prefix+rest[:m], rest[m:], "api")
 	}
 }
 
@@ -184,7 +184,7 @@ func VH_lexOp(a []string) {
 	buf := pre + op + post
 	vLexOpBody(buf, pre, post, op, p)
 	if vReplaying() && vFailedAny() {
-		vLiftLex(buf, "api")
+		vLiftLexParts(pre, op, post, "api")
 	}
 }
 
